@@ -18,6 +18,10 @@ CHECKS = {
             "it produced, blocks are contiguous, labels sit at the next statement, linked files tile the image. Generated programs are also compared "
             "with an independent reference layout, and the 21 practice programs with their committed images.",
             "The hook (PDPY11_VERIF=1) is trusted to report what compile_block did; sampling of an unbounded program space.", "3 C02"),
+    "C03": ("exploration", "metamorphic history checker over real runs: outcome(P) vs outcome(P with definitions re-placed)",
+            "Generated, chain (additive depth 300, non-linear depth 30) and corpus programs are assembled before and after moving their top-level "
+            "constant definitions; (status, base, bytes) must be equal. No model is involved, so the oracle cannot be wrong about values.",
+            "Movability rule: no '.' and no local label in the moved expression; sampling of placements.", "3 C03"),
     "C04": ("exploration", "outcome classifier + independent decoder over one-branch programs (exhaustive mnemonic x offset) and generated relative-operand programs",
             "Exhaustive over branch mnemonic x byte offset (both limits bracketed) with the distance realised several ways; every accepted "
             "branch is decoded and its effective target recomputed, every rejected one must fail with branch-out-of-bounds/odd-branch on the "
@@ -28,11 +32,23 @@ CHECKS = {
             "logical step budget; the outcome is classified (ok / fail with errors / fail silently / internal exception / non-termination) and a "
             "sample is tied to the CLI's banner and exit status. Listed findings are matched by mechanism predicates; anything else is a violation.",
             "Finite sampling of an unbounded input space; non-termination is decided as exceeding a logical budget ~10x above the largest legitimate cost seen.", "3 C08"),
+    "C16": ("exploration", "metamorphic checker: structured form vs written-out form (repeat/unroll, link/concatenate, insert_file/.byte, .end+junk, .once twice/once)",
+            "Both sides of each pair are rendered from one abstract program and assembled by the real assembler; (status, base, bytes) must be equal.",
+            "Bodies avoid the listed definitional-cycle finding; sampling.", "3 C16"),
     "C18": ("exploration", "history checker (probe after history vs fresh process, in forked children) + state invariants at quiescent points + PYTHONHASHSEED sweep",
             "Histories of valid, failing, crashing and hostile assemblies precede a probe in one process; the probe's observable must equal "
             "that of a fresh process, the module-level state must be at rest after every assembly that ended by itself, and fresh observables "
             "must agree across hash seeds.",
             "Observables compared: status, base, bytes, emitted-file list, diagnostics by severity/identifier/positions (not message text).", "3 C18"),
+    "C09": ("exploration", "word-wise differential monitor over three real runs at different link bases, word classes from the abstract program / the hook trace",
+            "Each generated program is assembled at three bases; every word must move by c*(difference) where c is predicted from the abstract "
+            "program (0 opcode/branch/relative-to-label/difference, 1 absolute, -1 relative-to-absolute). Corpus programs are re-based and their "
+            "traced instruction statements checked for base-free opcode words and a single c per extension word.",
+            "Layout-neutral bases (multiples of 64); programs whose layout depends on the base are excluded and counted.", "3 C09"),
+    "C10": ("exploration", "metamorphic checker: canonical spelling vs random compositions of the spelling rewrite rules, plus safe respelling of the corpus",
+            "One abstract program is rendered under many spelling styles by a context-aware renderer and assembled each time; the corpus is "
+            "respelled with the context-free-safe subset of the rules. (status, base, bytes) must be identical.",
+            "The renderer must only produce spellings the statement calls equivalent (e.g. it never respells a digit string that is a local label).", "3 C10"),
     "C13": ("exploration", "independent container readers (bin, RIFF, BK tape demodulator) over outputs of the real format functions and of shim-observed CLI runs",
             "Contract-style wrappers feed the real file_formats functions with synthetic (base, image, name) and decode what they return with "
             "independent readers; CLI runs are observed through an audit-hook/snapshot shim so that the set of files written is compared with "
